@@ -40,6 +40,11 @@ class ParseUserData:
         else:
             if config.allow_plugins:
                 value = self.parseCustom()
+                # A parser module with nothing to say may also return the
+                # JSON text for None; treat it like None so that the data
+                # is still hex dumped below instead of being dropped.
+                if value == 'null':
+                    value = None
             else:
                 d = dict()
                 if self.data:
